@@ -327,7 +327,13 @@ class C13(object):
                 if r.crashed:
                     res.violate("CLI-OK-CRASH:" + r.exception[0], "accepted program but CLI ended in uncaught %s: %s" % r.exception)
                 elif r.status != 0:
-                    res.violate("CLI-OK-NONZERO", "accepted program but exit status %r; stdout=%r" % (r.status, r.stdout[:120]))
+                    # the property does not say how a *save* that has to be refused is reported: an accepted program may
+                    # end non-zero when a target was already there, or when there is no name to store it under
+                    nameless = any(x in args for x in ("--to_cas", "--to_dsk")) and not (a["name"] or "--name" in args)
+                    if case.get("pre") or nameless:
+                        res.stats["cli_ok_nonzero_with_refused_save_not_judged"] += 1
+                    else:
+                        res.violate("CLI-OK-NONZERO", "accepted program but exit status %r; stdout=%r" % (r.status, r.stdout[:120]))
                 res.stats["probe:cli_ok_checked"] += 1
         if n_stmt:
             res.states.add("|".join([case["kind"], case.get("note", ""), outcome, a["detail"], str(min(n_stmt, 40) // 5),
